@@ -258,6 +258,19 @@ func (e *Environment) SetLocal(name string, val object.Object) object.Object {
 	return val
 }
 
+// DeclareLocal creates a variable in the innermost scope, and only there.
+//
+// Unlike SetLocal this never updates a variable of the same name which
+// lives in an enclosing scope: it is used to bind function parameters,
+// `local` variables and the variables of a foreach-loop, all of which must
+// shadow - not overwrite - anything the caller has of the same name.
+func (e *Environment) DeclareLocal(name string, val object.Object) object.Object {
+	if len(e.local) > 0 {
+		e.local[len(e.local)-1][name] = val
+	}
+	return val
+}
+
 // SetFunction makes a (golang) function available to the scripting
 // environment.
 func (e *Environment) SetFunction(name string, fun interface{}) interface{} {
